@@ -197,7 +197,12 @@ func TestC11DumpBase(t *testing.T) {
 	if os.Getenv("C11_DUMP") == "" {
 		t.Skip()
 	}
-	f, err := c11Dump(fmt.Sprintf(c11DevBase, os.Getenv("C11_DEV")))
+	text := fmt.Sprintf(c11DevBase, os.Getenv("C11_DEV"))
+	if fn := os.Getenv("C11_FILE"); fn != "" {
+		b, _ := os.ReadFile(fn)
+		text = string(b)
+	}
+	f, err := c11Dump(text)
 	if err != nil {
 		t.Fatal(err)
 	}
